@@ -163,6 +163,17 @@ pub fn run(cfg: &RunCfg) -> PropRun {
     let fr = &ft;
     let out = enumerate(cfg, "named-shapes", move |shard, nsh| (0..fr.len()).filter(move |i| i % nsh == shard).map(move |i| Case::Text(fr[i].clone())), check_case);
     run.absorb(out);
+    let ivs = crate::props::c09::structured_intervals();
+    let n = ivs.len();
+    let ir = &ivs;
+    let out = enumerate(
+        cfg,
+        "structured-unions",
+        move |shard, nsh| (0..n).filter(move |i| i % nsh == shard).flat_map(move |i| (0..=n).map(move |j| if j == n { ir[i].clone() } else { format!("{} || {}", ir[i], ir[j]) })),
+        |t: &String, st| check_case(&Case::Text(t.clone()), st),
+    );
+    run.absorb(out);
+    run.stats.exhaustive_subspaces.push(json!({"name": "every single interval and every ordered two-alternative union over an adjacent 6-version chain (all bound kinds)", "ranges": n * (n + 1)}));
     let out = campaign(cfg, ID, "ast", cfg.pick(300_000, 3_000_000), ast_strategy, check_case);
     run.absorb(out);
     let out = campaign(cfg, ID, "algebra", cfg.pick(300_000, 3_000_000), expr_strategy, check_case);
@@ -170,7 +181,12 @@ pub fn run(cfg: &RunCfg) -> PropRun {
     run
 }
 
-pub fn replay(_campaign: &str, case: &Value) -> Result<(), Failure> {
-    let c: Case = serde_json::from_value(case.clone()).map_err(|e| Failure::new("bad-replay", e.to_string()))?;
+pub fn replay(campaign: &str, case: &Value) -> Result<(), Failure> {
+    let bad = |e: serde_json::Error| Failure::new("bad-replay", e.to_string());
+    if campaign == "structured-unions" {
+        let t: String = serde_json::from_value(case.clone()).map_err(bad)?;
+        return check_case(&Case::Text(t), &mut Stats::default());
+    }
+    let c: Case = serde_json::from_value(case.clone()).map_err(bad)?;
     check_case(&c, &mut Stats::default())
 }
